@@ -83,6 +83,18 @@ def run(unit, em):
                     refs_res = resvar is not None and any(x['k'] == 'DeclRefExpr' and x.get('d') == resvar for a in m.get('args', []) for x in walk(a))
                     keyvars = {x.get('d') for x in walk(ins['args'][0]) if x['k'] == 'DeclRefExpr'} if ins.get('args') else set()
                     argvars = {x.get('d') for a in m.get('args', []) for x in walk(a) if x['k'] == 'DeclRefExpr'}
+                    if not (keyvars & argvars) and ins.get('args'):
+                        # the enqueued value and the inserted key derive from one another through locals
+                        # (`state = dict.find(node)->second; if (seen.insert(state).second) stack.push(node);`)
+                        from .prov import origins
+                        ko = origins(fn, ins['args'][0])
+                        ao = set()
+                        for a in m.get('args', []):
+                            ao |= origins(fn, a)
+                        vt_ = var_table(fn)
+                        loc = lambda s: {d for d in s if d in vt_ and vt_[d]['kind'] in ('local', 'rangevar')}
+                        if (loc(ko) & argvars) or (loc(ao) & keyvars):
+                            keyvars = keyvars | argvars
                     if enq is None and (key and key in at or at and at in key or refs_res or (keyvars & argvars)):
                         enq = (m, W)
                         continue
